@@ -36,6 +36,16 @@ def collect():
             continue
         shutil.copytree(d, dst)
         print('collected', sid)
+    # round 2: /tmp/w2_Cxx/out/m1,m2 -> Cxx_m4, Cxx_m5
+    for d in sorted(glob.glob('/tmp/w2_C*/out/m*')):
+        prop = re.search(r'w2_(C\d+)', d).group(1)
+        n = int(os.path.basename(d)[1:]) + 3
+        sid = '%s_m%d' % (prop, n)
+        dst = os.path.join(SEEDED, sid)
+        if os.path.exists(dst):
+            continue
+        shutil.copytree(d, dst)
+        print('collected', sid)
 
 
 def demo_cmd(sid, wt):
